@@ -112,7 +112,28 @@ def run_raire(case, rec, monitor):
     agap = case.get("agap", 0)
     if agap:
         rec.count("runs_with_a_positive_allowed_gap")
-    ok, res = rec.guard(monitor, compute_raire_assertions, contest, cvrs, winner, asn_func, False, sink, agap)
+    if case.get("time_limit"):
+        # a generous per-run watchdog for the strata whose search can degenerate (many candidates): firing means "this run
+        # was not observed" - it is counted, never judged
+        import signal
+
+        class _TooSlow(BaseException):
+            pass
+
+        def _fire(*_a):
+            raise _TooSlow()
+        old_h = signal.signal(signal.SIGALRM, _fire)
+        signal.setitimer(signal.ITIMER_REAL, float(case["time_limit"]))
+        try:
+            ok, res = rec.guard(monitor, compute_raire_assertions, contest, cvrs, winner, asn_func, False, sink, agap)
+        except _TooSlow:
+            rec.count("raire_runs_abandoned_by_the_per_run_watchdog")
+            return None
+        finally:
+            signal.setitimer(signal.ITIMER_REAL, 0)
+            signal.signal(signal.SIGALRM, old_h)
+    else:
+        ok, res = rec.guard(monitor, compute_raire_assertions, contest, cvrs, winner, asn_func, False, sink, agap)
     if not ok:
         return None
     out = {"result": res, "cands": cands, "winner": winner, "counter": irv.counter_of(prof), "tot": tot,
@@ -171,4 +192,4 @@ def gen_eleven(rng):
     # makes the search walk a tree of 10! leaves)
     return {"cands": sorted(cands), "ballots": [list(x) for x in ballots], "winner": b, "asn": rng.choice(("cp", "bp")),
             "order": [], "informal": 0, "warm": False, "dict_order": rng.choice(("preference", "candidate")), "cname": "con1",
-            "rank_gaps": False, "stored_winner": None}
+            "rank_gaps": False, "stored_winner": None, "time_limit": 10}
